@@ -395,7 +395,14 @@ def build(spec: dict):
     f = spec["family"]
     with contextlib.redirect_stdout(io.StringIO()):
         if f == "generic":
-            return E.LinearBlockCodeEncoder(torch.tensor(spec["G"], dtype=torch.float32))
+            # every third generic entry hands the constructor an int64 matrix, the others float32
+            dt = torch.int64 if spec.get("id", 0) % 3 == 1 else torch.float32
+            try:
+                return E.LinearBlockCodeEncoder(torch.tensor(spec["G"], dtype=dt))
+            except (RuntimeError, TypeError):
+                if dt == torch.float32:
+                    raise
+                return E.LinearBlockCodeEncoder(torch.tensor(spec["G"], dtype=torch.float32))
         if f == "systematic":
             return E.SystematicLinearBlockCodeEncoder(torch.tensor(spec["P"], dtype=torch.float32), information_set=spec["info"])
         if f == "hamming":
